@@ -107,6 +107,10 @@ def gen_inlines(c, depth=0, allow_link=True, allow_break=True, n=None, allow_htm
             it = N('strong', children=gen_inlines(c, depth + 1, allow_link, False, 1 + t.below(3), allow_html))
         elif k < 66:
             it = N('code', content=t.choice(CODE_CONTENT), extra=0 if c.canonical else t.weighted([(3, 0), (1, 1), (1, 2)]))
+            if c.reflow and (_code_delim(it)[0] >= 3 or it.content != it.content.strip(' ') or '  ' in it.content):
+                # a code span delimiter of three or more backticks could end up at the start of a line and open a fence;
+                # code whose content has edge or double spaces is a recorded finding (spaces are lost when it is wrapped)
+                it = N('code', content='a b', extra=0)
         elif k < 74 and allow_link:
             it = gen_link(c, depth, image=False)
         elif k < 78 and allow_link:
@@ -133,7 +137,7 @@ def gen_inlines(c, depth=0, allow_link=True, allow_break=True, n=None, allow_htm
             k = t.below(100)
             if allow_break and k < 15:
                 out.append(N('soft', indent=0 if c.canonical else t.weighted([(4, 0), (1, 1), (1, 3), (1, 5)])))
-            elif allow_break and k < 22 and not c.reflow:
+            elif allow_break and k < 22:
                 out.append(N('hard', style=t.choice(['  ', '   ', '\\']) if not c.canonical else t.choice(['  ', '\\']),
                              indent=0 if c.canonical else t.weighted([(4, 0), (1, 2)])))
             else:
